@@ -139,6 +139,12 @@ def add_schema_invariants(draw: Any, spec: Spec, opts: Opts, used: set) -> None:
                      or (k.kind == "set_enum" and t.kind == "enum" and k.enum == t.name)]
             if ssets:
                 forms += ["set", "set"]
+            if p.name not in own and prim == "str" and len(pfns) >= 2 and any(
+                    inv.tags.get("prop") == p.name and inv.tags.get("form") == "pattern"
+                    for k in spec.ancestors(c.name) for inv in spec.cls(k).invs):
+                # an ancestor already constrains the property by a pattern: several further patterns here
+                # exercise the tightening of pattern lists (the part of the child's list the parent lacks)
+                forms += ["pattern2"] * 3 + (["pattern3"] * 3 if len(pfns) >= 3 else [])
             if not forms:
                 continue
             for _ in range(draw(st.integers(1, 2))):
